@@ -722,6 +722,18 @@ func buildPDF(c *fw.Ctx, dir string, i int, base *pagegen.Page) pdfCase {
 		sps = append(sps, p.SimplePage(base.Spec.Scale, mode))
 		dev = append(dev, p.Transform(false, base.Spec.Scale))
 	}
+	// page-box spellings: layout analysis takes the page size from the MediaBox; text must be
+	// conserved whatever the box says (indirect numbers, or a degenerate empty box on the first page)
+	switch bx := r.Intn(8); {
+	case bx == 0:
+		for k := range sps {
+			sps[k].Box = "indirect"
+		}
+		c.Seen("pdf", "mediabox=indirect-numbers")
+	case bx == 1 && len(sps) == 2:
+		sps[0].Box = "zero"
+		c.Seen("pdf", "mediabox=degenerate-first-page")
+	}
 	if mode.ScaleByCTM {
 		c.Seen("pdf", "scale-by-ctm")
 	}
